@@ -2,7 +2,7 @@
 //
 // Case: cfg only (ops unused):
 //   [0] arch 0 x86-64, 1 x86-32, 2 AArch64        [1] calling convention index (per arch table)   [2] platform 0 linux/gnu, 1 windows/msvc (a64: darwin)
-//   [3] nargs 0..8   [4] arg type selectors (3 bits per arg)
+//   [3] nargs 0..12   [4] arg type selectors (3 bits per arg)
 //   [5] dirty GP mask  [6] dirty Vec mask  [7] dirty K mask  [8] dirty MM mask
 //   [9] local stack size  [10] local alignment sel (0 unset, n -> 1<<(n-1), n<=7)  [11] call stack size  [12] call alignment sel
 //   [13] flag bits (F_*)   [14] explicit SA register (0 none, n -> GP id n-1)
@@ -67,7 +67,7 @@ static P decode(const vh::Case& c) {
   p.arch = int(um(cg(c, 0)) % 3);
   p.cc_sel = int(um(cg(c, 1)) % (p.arch == ARCH_X64 ? 13 : p.arch == ARCH_X86 ? 11 : 5));
   p.plat = int(um(cg(c, 2)) % 2);
-  p.nargs = int(um(cg(c, 3)) % 9);
+  p.nargs = int(um(cg(c, 3)) % 13);
   p.argsel = um(cg(c, 4));
   uint32_t gpm = p.arch == ARCH_X64 ? 0xFFFFu : p.arch == ARCH_X86 ? 0xFFu : 0x7FFFFFFFu;
   p.flags = uint32_t(um(cg(c, 13))) & F_ALL;
@@ -140,7 +140,7 @@ static bool build(const P& p, Built& b, vh::Ctx& ctx) {
   b.env = Environment(arch_of(p), SubArch::kUnknown, Vendor::kUnknown, plat, abi);
   CallConvId id = p.arch == ARCH_A64 ? kCcA64[p.cc_sel] : kCcX86[p.cc_sel];
   b.sig = FuncSignature(id, p.has(F_SIG_VARARGS) ? uint32_t(p.nargs) : uint32_t(FuncSignature::kNoVarArgs));
-  for (int i = 0; i < p.nargs; i++) b.sig.add_arg(kArgTypes[(p.argsel >> (3 * i)) & 7]);
+  for (int i = 0; i < p.nargs; i++) b.sig.add_arg(kArgTypes[(p.argsel >> (3 * (i % 8))) & 7]);
   Error e = b.fd.init(b.sig, b.env);
   if (e != Error::kOk) { ctx.fail_unless_known("funcdetail-init-error", fmt("FuncDetail::init returned %u for cc index %d arch %d", unsigned(e), p.cc_sel, p.arch)); return false; }
   b.rs = p.arch == ARCH_X86 ? 4 : 8;
@@ -154,7 +154,7 @@ static bool build(const P& p, Built& b, vh::Ctx& ctx) {
   if (p.arch == ARCH_A64) {
     bool apple = cc.strategy() == CallConvStrategy::kAArch64Apple;
     if (idn >= 16 && idn <= 18) snprintf(nm, sizeof nm, "light%u-a64%s", idn - 14, apple ? "-apple" : "");
-    else snprintf(nm, sizeof nm, "%s", apple ? "apple-a64" : "aapcs64");
+    else snprintf(nm, sizeof nm, "%s", apple ? "apple-a64" : "aapcs-a64");
   } else {
     const char* sfx = p.arch == ARCH_X64 ? "64" : "32";
     switch (cc.id()) {
@@ -179,7 +179,7 @@ static bool build(const P& p, Built& b, vh::Ctx& ctx) {
     if (b.cc == "sysv64") { egp = 0xF038; evec = 0; }
     else if (b.cc == "win64" || b.cc == "vectorcall64") { egp = 0xF0F8; evec = 0xFFC0; }
     else if (p.arch == ARCH_X86 && idn < 8) { egp = 0xF8; evec = 0; }
-    else if (b.cc == "aapcs64" || b.cc == "apple-a64") { egp = 0x7FFC0000u; evec = 0xFF00; }
+    else if (b.cc == "aapcs-a64" || b.cc == "apple-a64") { egp = 0x7FFC0000u; evec = 0xFF00; }
     else have = false;
     if (have && (gp != egp || vec != evec))
       ctx.fail_unless_known("preserved-set-wrong:" + b.cc, fmt("CallConv preserved regs gp=%s vec=%s, the ABI says gp=%s vec=%s (SP bit included)", hex(gp).c_str(), hex(vec).c_str(), hex(egp).c_str(), hex(evec).c_str()));
@@ -187,6 +187,14 @@ static bool build(const P& p, Built& b, vh::Ctx& ctx) {
     b.preserved[2] = cc.preserved_regs(RegGroup::kMask);
     b.preserved[3] = cc.preserved_regs(RegGroup::kExtra);
     b.preserved[0] &= ~(1u << b.sp_id);
+    // constants the headers document: red zone (AMD64 == 128), spill zone (WIN-X64 == 32), 16-byte stack alignment on 64-bit targets
+    {
+      int want_red = b.cc == "sysv64" ? 128 : (b.cc == "win64" || p.arch == ARCH_X86) ? 0 : -1;
+      int want_spill = b.cc == "win64" ? 32 : (b.cc == "sysv64" || p.arch != ARCH_X64) ? 0 : -1;
+      int want_nat = p.arch != ARCH_X86 ? 16 : idn < 8 ? 4 : -1;
+      if ((want_red >= 0 && int(cc.red_zone_size()) != want_red) || (want_spill >= 0 && int(cc.spill_zone_size()) != want_spill) || (want_nat >= 0 && int(cc.natural_stack_alignment()) != want_nat))
+        ctx.fail_unless_known("abi-constant-wrong:" + b.cc, fmt("red zone %u (want %d) spill zone %u (want %d) natural alignment %u (want %d)", cc.red_zone_size(), want_red, cc.spill_zone_size(), want_spill, cc.natural_stack_alignment(), want_nat));
+    }
     // which conventions pop their stack arguments (x86-32 only)
     bool pops = p.arch == ARCH_X86 && (b.cc == "stdcall32" || b.cc == "fastcall32" || b.cc == "vectorcall32" || b.cc == "thiscall32");
     if (pops != cc.has_flag(CallConvFlags::kCalleePopsStack))
@@ -441,15 +449,16 @@ struct Sim {
   void wrw(uint64_t a, uint64_t v) { wr(a, &v, rs); }
 };
 
+static const BaseBuilder* g_fmt_builder = nullptr;
 static std::string node_text(const P& p, const InstNode* n) {
   String s;
-  Formatter::format_node(s, FormatOptions(), nullptr, n);
+  if (!g_fmt_builder || Formatter::format_node(s, FormatOptions(), g_fmt_builder, n) != Error::kOk) return "<inst " + std::to_string(unsigned(n->inst_id())) + ">";
   (void)p;
   return std::string(s.data(), s.size());
 }
 
 static void sim_x86(const P& p, Sim& m, const InstNode* n) {
-  using x86::Inst;
+  namespace Inst = x86::Inst;
   InstId id = n->inst_id();
   Span<const Operand> ops = n->operands();
   auto isgp = [&](size_t i) { return i < ops.size() && ops[i].is_reg() && ops[i].as<Reg>().is_gp(); };
@@ -481,7 +490,7 @@ static void sim_x86(const P& p, Sim& m, const InstNode* n) {
       uint32_t sz = ops[ri].as<Reg>().size(); if (sz < 16 || sz > 64) sz = 16;
       uint64_t a = addr(mi);
       uint32_t vid = rid(ri);
-      if (!vex && vid >= 16) { m.stop("emit-error:x86", "legacy SSE move with xmm" + std::to_string(vid)); return; }
+      if (!vex && vid >= 16) { m.stop("vec-save-sse-with-xmm16plus", "legacy SSE move with xmm" + std::to_string(vid)); return; }
       if (aligned && a % sz != 0) { m.stop("vec-save-misaligned", node_text(p, n) + " with address " + hex(a) + " would fault (#GP)"); return; }
       if (mi == 0) m.wr(a, m.r.vec[vid], sz);
       else { m.rd(a, m.r.vec[vid], sz); if (vex) memset(m.r.vec[vid] + sz, 0, 64 - sz); }
@@ -506,7 +515,7 @@ static void sim_x86(const P& p, Sim& m, const InstNode* n) {
 }
 
 static void sim_a64(const P& p, Sim& m, const InstNode* n) {
-  using a64::Inst;
+  namespace Inst = a64::Inst;
   InstId id = n->inst_id();
   Span<const Operand> ops = n->operands();
   auto isreg = [&](size_t i) { return i < ops.size() && ops[i].is_reg(); };
@@ -554,6 +563,8 @@ static void run_sim(const P& p, const Built& b, vh::Ctx& ctx) {
   x86::Builder xb; a64::Builder ab;
   BaseBuilder* bb = p.arch == ARCH_A64 ? static_cast<BaseBuilder*>(&ab) : static_cast<BaseBuilder*>(&xb);
   if (code.attach(bb) != Error::kOk) ctx.fail("harness-attach", "attach failed");
+  g_fmt_builder = bb;
+  struct Unset { ~Unset() { g_fmt_builder = nullptr; } } unset_guard;
   Error e1 = bb->emit_prolog(f);
   BaseNode* split = bb->cursor();
   Error e2 = bb->emit_epilog(f);
@@ -571,14 +582,18 @@ static void run_sim(const P& p, const Built& b, vh::Ctx& ctx) {
   uint64_t base64 = p.arch == ARCH_X86 ? 0xBFF80000ull : 0x00007FFD40000000ull;
   uint64_t E = entry_sp(p, b, base64, p.entry_k);
   uint64_t RA = p.arch == ARCH_X86 ? 0x08049A10ull : 0x0000000000401A2Cull;
-  const uint64_t kBelow = 0x48000, kAbove = 0x400;
+  const uint64_t kAbove = 0x400;
+  const uint64_t kBelow = std::min<uint64_t>(0x48000, (uint64_t(f.final_stack_size()) + f.stack_adjustment() + 0x2FFF) & ~uint64_t(0xFFF));
+  static std::vector<uint8_t> s_mem, s_orig;
+  m.mem.swap(s_mem);
   m.mem_lo = E - kBelow;
   m.mem.assign(kBelow + kAbove, 0xC7);
   for (uint64_t a = E; a < E + kAbove; a++) m.mem[a - m.mem_lo] = uint8_t(mix(p.seed * 7919 + (a - E)) | 1);
   if (p.arch == ARCH_A64) m.r.gp[30] = RA; else m.wrw(E, RA);
   m.sp() = E;
   in = m.r;
-  std::vector<uint8_t> orig = m.mem;
+  std::vector<uint8_t>& orig = s_orig;
+  orig = m.mem;
   uint64_t S = 0;
   bool body_done = false, wrote_spill = false;
 
@@ -587,24 +602,32 @@ static void run_sim(const P& p, const Built& b, vh::Ctx& ctx) {
     S = m.sp();
     check_body_sp(p, b, ctx, S, "sim");
     if (!b.da && E - S != f.final_stack_size())
-      ctx.fail_unless_known("final-stack-size-mismatch", fmt("[sim] entry SP - body SP = %llu, final_stack_size() = %u :: %s :: %s", (unsigned long long)(E - S), f.final_stack_size(), describe(p, b).c_str(), lst().c_str()));
+      ctx.fail_unless_known("final-stack-size-mismatch:" + b.cc, fmt("[sim] entry SP - body SP = %llu, final_stack_size() = %u :: %s :: %s", (unsigned long long)(E - S), f.final_stack_size(), describe(p, b).c_str(), lst().c_str()));
     if (b.da && E - S < f.final_stack_size())
-      ctx.fail_unless_known("final-stack-size-mismatch", fmt("[sim] entry SP - body SP = %llu < final_stack_size() = %u :: %s :: %s", (unsigned long long)(E - S), f.final_stack_size(), describe(p, b).c_str(), lst().c_str()));
+      ctx.fail_unless_known("final-stack-size-mismatch:" + b.cc, fmt("[sim] entry SP - body SP = %llu < final_stack_size() = %u :: %s :: %s", (unsigned long long)(E - S), f.final_stack_size(), describe(p, b).c_str(), lst().c_str()));
+    if (b.fp) {   // a preserved frame pointer forms a frame record: [FP] = caller's FP, next word = return address
+      uint64_t fpv = m.r.gp[b.fp_id], w0 = 0, w1 = 0;
+      bool okr = m.in(fpv, 2 * b.rs);
+      if (okr) { memcpy(&w0, &m.mem[fpv - m.mem_lo], b.rs); memcpy(&w1, &m.mem[fpv + b.rs - m.mem_lo], b.rs); }
+      bool good = okr && w0 == in.gp[b.fp_id] && w1 == RA && (p.arch == ARCH_A64 || fpv == ((E - b.rs) & m.mask));
+      if (!good)
+        ctx.fail_unless_known("frame-pointer-wrong:" + b.cc, fmt("[sim] FP in the body is %s: [FP] = %s (caller FP %s), [FP+%u] = %s (return address %s) :: %s :: %s", hex(fpv).c_str(), hex(w0).c_str(), hex(in.gp[b.fp_id]).c_str(), b.rs, hex(w1).c_str(), hex(RA).c_str(), describe(p, b).c_str(), lst().c_str()));
+    }
     // stack-passed arguments through every base the frame documents
     std::string asfx = (p.arch == ARCH_A64 && b.da) ? ":a64-da" : "";
     for (int32_t off : b.stack_args) {
       uint64_t want = 0; memcpy(&want, &orig[E + b.ret_size + uint64_t(off) - m.mem_lo], b.rs);
-      struct { const char* name; bool use; uint64_t a; } paths[3] = {
-        {"sp+sa_offset_from_sp", f.sa_offset_from_sp() != FuncFrame::kTagInvalidOffset, S + f.sa_offset_from_sp() + uint64_t(off)},
-        {"fp+sa_offset_from_sa", b.fp, m.r.gp[b.fp_id] + f.sa_offset_from_sa() + uint64_t(off)},
-        {"sa_reg+sa_offset_from_sa", f.sa_reg_id() != b.sp_id && f.sa_reg_id() != Reg::kIdBad, m.r.gp[f.sa_reg_id() & 31u] + f.sa_offset_from_sa() + uint64_t(off)} };
+      struct { const char* name; const char* tagk; bool use; uint64_t a; } paths[3] = {
+        {"sp+sa_offset_from_sp", ":sp", f.sa_offset_from_sp() != FuncFrame::kTagInvalidOffset, S + f.sa_offset_from_sp() + uint64_t(off)},
+        {"fp+sa_offset_from_sa", ":fp", b.fp, m.r.gp[b.fp_id] + f.sa_offset_from_sa() + uint64_t(off)},
+        {"sa_reg+sa_offset_from_sa", ":sa", f.sa_reg_id() != b.sp_id && f.sa_reg_id() != Reg::kIdBad, m.r.gp[f.sa_reg_id() & 31u] + f.sa_offset_from_sa() + uint64_t(off)} };
       for (auto& pa : paths) {
         if (!pa.use) continue;
         uint64_t a = pa.a & m.mask, got = 0;
         bool okr = m.in(a, b.rs);
         if (okr) memcpy(&got, &m.mem[a - m.mem_lo], b.rs);
         if (!okr || got != want || a != ((E + b.ret_size + uint64_t(off)) & m.mask))
-          ctx.fail_unless_known("stack-arg-offset-wrong:" + b.cc + asfx, fmt("[sim] stack argument at offset %d: %s gives address %s, the argument lives at %s :: %s :: %s", off, pa.name, hex(a).c_str(), hex(E + b.ret_size + uint64_t(off)).c_str(), describe(p, b).c_str(), lst().c_str()));
+          ctx.fail_unless_known("stack-arg-offset-wrong:" + b.cc + pa.tagk + asfx, fmt("[sim] stack argument at offset %d: %s gives address %s, the argument lives at %s :: %s :: %s", off, pa.name, hex(a).c_str(), hex(E + b.ret_size + uint64_t(off)).c_str(), describe(p, b).c_str(), lst().c_str()));
       }
     }
     // scribble over everything the body owns
@@ -650,15 +673,370 @@ static void run_sim(const P& p, const Built& b, vh::Ctx& ctx) {
     check_regs(p, b, ctx, in, m.r, "sim", true, m.vzeroupper, lst());
     // memory the frame must not touch
     uint64_t low_ok = S - f.red_zone_size();
-    for (uint64_t a = m.mem_lo; a < low_ok && a < m.mem_lo + m.mem.size(); a++)
+    uint64_t lim = std::min<uint64_t>(low_ok, m.mem_lo + m.mem.size());
+    if (lim > m.mem_lo && memcmp(&m.mem[0], &orig[0], lim - m.mem_lo) != 0) for (uint64_t a = m.mem_lo; a < lim; a++)
       if (m.mem[a - m.mem_lo] != orig[a - m.mem_lo]) { ctx.fail_unless_known("canary-below-frame" + sfx, fmt("[sim] byte at %s (body SP %s, %llu below SP - red zone) was written :: %s :: %s", hex(a).c_str(), hex(S).c_str(), (unsigned long long)(low_ok - a), describe(p, b).c_str(), lst().c_str())); break; }
     for (uint64_t a = E + b.ret_size + (wrote_spill ? f.spill_zone_size() : 0); a < E + kAbove; a++)
       if (m.mem[a - m.mem_lo] != orig[a - m.mem_lo]) { ctx.fail_unless_known("caller-frame-clobbered" + sfx, fmt("[sim] caller byte at entry SP + %llu was written :: %s :: %s", (unsigned long long)(a - E), describe(p, b).c_str(), lst().c_str())); break; }
   }
   // the node list must assemble
   Error e3 = bb->finalize();
+  m.mem.swap(s_mem);
   if (e3 != Error::kOk || code.code_size() == 0)
-    ctx.fail_unless_known(std::string("assemble-error:") + an, fmt("Builder::finalize -> %u (code size %zu) :: %s :: %s", unsigned(e3), code.code_size(), describe(p, b).c_str(), lst().c_str()));
+    ctx.fail_unless_known("assemble-error:" + b.cc, fmt("Builder::finalize -> %u (code size %zu) :: %s :: %s", unsigned(e3), code.code_size(), describe(p, b).c_str(), lst().c_str()));
 }
-//@@PART3@@
+// ---------------------------------------------------------------------------------------------------------------------------
+// Oracle 3: execution on the host CPU (x86-64 only)
+// ---------------------------------------------------------------------------------------------------------------------------
+enum : uint32_t {
+  D_THUNK_RSP = 0x00, D_AFTER_RSP = 0x08, D_RETURNED = 0x10, D_BODY_RSP = 0x18, D_BODY_RBP = 0x20, D_BODY_SA = 0x28,
+  D_ARGS = 0x40 /* [3][16] qwords */, D_JUNK_VEC = 0x1C0 /* 32 x 64 */, D_JUNK_GP = 0x9C0, D_JUNK_K = 0xA40, D_JUNK_MM = 0xA80,
+  D_MM_INIT = 0xAC0, D_MM_AFTER = 0xB00, D_SIZE = 0xB40
+};
+static const uint32_t kThunkWords = 24, kMaxStackArgs = 16;
+static uint8_t* g_exec = nullptr;
+static const size_t kExecSize = 1u << 16;
+static bool g_stack_filled = false;
+
+__attribute__((no_sanitize("address"))) static const uint8_t* first_not(const uint8_t* a, const uint8_t* e, uint8_t pat) {
+  uint64_t w = 0x0101010101010101ull * pat;
+  while (a < e && (uintptr_t(a) & 7)) { if (*a != pat) return a; a++; }
+  while (a + 8 <= e) { if (*(const uint64_t*)a != w) break; a += 8; }
+  while (a < e) { if (*a != pat) return a; a++; }
+  return nullptr;
+}
+
+static bool host_has_avx512() {
+  static int v = -1;
+  if (v < 0) { const CpuFeatures& cf = CpuInfo::host().features(); v = cf.x86().has_avx512_f() && cf.x86().has_avx512_bw() && cf.x86().has_avx512_vl() && cf.x86().has_avx512_dq(); }
+  return v != 0;
+}
+
+static void run_host(const P& p, const Built& b, vh::Ctx& ctx) {
+  const FuncFrame& f = b.frame;
+  if (!host_has_avx512()) { ctx.cls("host_skipped_no_avx512"); return; }
+  if (!g_exec) {
+    void* m = mmap(nullptr, kExecSize, PROT_READ | PROT_WRITE | PROT_EXEC, MAP_PRIVATE | MAP_ANONYMOUS, -1, 0);
+    if (m == MAP_FAILED) { ctx.cls("host_skipped_no_rwx"); return; }
+    g_exec = (uint8_t*)m;
+  }
+  uint32_t k = p.entry_k % 4;
+  bool use_mm = f.dirty_regs(RegGroup::kExtra) != 0 || f.has_mmx_cleanup() || b.preserved[3] != 0;
+  bool vzu = f.has_avx_cleanup() || (f.has_avx_auto_cleanup() && f.dirty_regs(RegGroup::kVec) != 0);
+  uint32_t sa_id = f.sa_reg_id();
+  bool sa_path = sa_id != Reg::kIdBad && sa_id != 4;
+  bool sp_path = f.sa_offset_from_sp() != FuncFrame::kTagInvalidOffset;
+  size_t nsa = std::min<size_t>(b.stack_args.size(), kMaxStackArgs);
+
+  RegState in;
+  init_regs(p, in, ~0ull);
+  std::vector<uint8_t> data(D_SIZE, 0);
+  auto put = [&](uint32_t off, uint64_t v) { memcpy(&data[off], &v, 8); };
+  for (int i = 0; i < 32; i++) for (int j = 0; j < 8; j++) put(D_JUNK_VEC + uint32_t(i) * 64 + uint32_t(j) * 8, junk_word(p, i * 8 + j));
+  for (int i = 0; i < 16; i++) put(D_JUNK_GP + 8 * uint32_t(i), junk_gp(p, i));
+  for (int i = 0; i < 8; i++) { put(D_JUNK_K + 8 * uint32_t(i), junk_word(p, 300 + i)); put(D_JUNK_MM + 8 * uint32_t(i), junk_word(p, 310 + i)); put(D_MM_INIT + 8 * uint32_t(i), in.mm[i]); }
+  auto tword = [&](uint32_t i) { return int32_t(0x51000000u + i * 0x010203u + uint32_t(p.seed & 0xFFFF)); };
+
+  CodeHolder code;
+  if (code.init(b.env) != Error::kOk) ctx.fail("harness-codeholder-init", "CodeHolder::init failed");
+  x86::Assembler a(&code);
+  Label L_fn = a.new_label(), L_data = a.new_label();
+  auto D = [&](uint32_t off) { return x86::qword_ptr(L_data, int32_t(off)); };
+  using namespace x86;
+  // ---- thunk: builds the caller's frame, calls the function, records SP after the return ----
+  a.mov(D(D_THUNK_RSP), rsp);
+  a.lea(rsp, ptr(rsp, -int32_t(8 + 16 * k + 8 * kThunkWords)));
+  for (uint32_t i = 0; i < kThunkWords; i++) a.mov(qword_ptr(rsp, int32_t(8 * i)), Imm(tword(i)));
+  if (use_mm) for (uint32_t i = 0; i < 8; i++) a.movq(mm(i), D(D_MM_INIT + 8 * i));
+  a.call(L_fn);
+  a.mov(D(D_AFTER_RSP), rsp);
+  a.mov(dword_ptr(L_data, D_RETURNED), Imm(1));
+  if (use_mm) { for (uint32_t i = 0; i < 8; i++) a.movq(D(D_MM_AFTER + 8 * i), mm(i)); a.emms(); }
+  a.mov(rsp, D(D_THUNK_RSP));
+  a.ret();
+  // ---- the function under test ----
+  a.bind(L_fn);
+  size_t fn_off = a.offset();
+  Error e1 = a.emit_prolog(f);
+  size_t body_off = a.offset();
+  {
+    Gp scr = (sa_path && sa_id == 0) ? rcx : rax;
+    a.mov(D(D_BODY_RSP), rsp);
+    a.mov(D(D_BODY_RBP), rbp);
+    if (sa_path) a.mov(D(D_BODY_SA), gpq(sa_id));
+    for (size_t j = 0; j < nsa; j++) {
+      int32_t off = b.stack_args[j];
+      if (sp_path) { a.mov(scr, qword_ptr(rsp, int32_t(f.sa_offset_from_sp()) + off)); a.mov(D(D_ARGS + uint32_t(j) * 8), scr); }
+      if (b.fp) { a.mov(scr, qword_ptr(rbp, int32_t(f.sa_offset_from_sa()) + off)); a.mov(D(D_ARGS + 128 + uint32_t(j) * 8), scr); }
+      if (sa_path) { a.mov(scr, qword_ptr(gpq(sa_id), int32_t(f.sa_offset_from_sa()) + off)); a.mov(D(D_ARGS + 256 + uint32_t(j) * 8), scr); }
+    }
+    auto fill = [&](const Mem& where, uint32_t n, uint8_t pat) { if (!n) return; a.lea(rdi, where); a.mov(ecx, Imm(n)); a.mov(eax, Imm(pat)); a.rep().stosb(); };
+    if (p.has(F_WRITE_SPILL) && f.spill_zone_size()) {   // first: may need the SA register before rax/rcx/rdi are used
+      Mem spill = sp_path ? ptr(rsp, int32_t(f.sa_offset_from_sp())) : b.fp ? ptr(rbp, int32_t(f.sa_offset_from_sa())) : ptr(gpq(sa_path ? sa_id : 5), int32_t(f.sa_offset_from_sa()));
+      fill(spill, f.spill_zone_size(), 0xB4);
+    }
+    fill(ptr(rsp, int32_t(f.local_stack_offset())), f.local_stack_size(), 0xB1);
+    fill(ptr(rsp), f.call_stack_size(), 0xB2);
+    fill(ptr(rsp, -int32_t(f.red_zone_size())), f.red_zone_size(), 0xB3);
+    a.mov(rax, Imm(in.gp[0])); a.mov(rcx, Imm(in.gp[1])); a.mov(rdi, Imm(in.gp[7]));
+    for (uint32_t i = 0; i < 16; i++) {
+      if (i == 4 || (b.fp && i == 5) || !((f.dirty_regs(RegGroup::kGp) >> i) & 1)) continue;
+      a.mov(gpq(i), D(D_JUNK_GP + 8 * i));
+    }
+    for (uint32_t i = 0; i < 32; i++) {
+      if (!((f.dirty_regs(RegGroup::kVec) >> i) & 1)) continue;
+      Mem src = ptr(L_data, int32_t(D_JUNK_VEC + 64 * i));
+      if (p.has(F_AVX512) || i >= 16) a.vmovdqu64(zmm(i), src);
+      else if (p.has(F_AVX)) a.vmovdqu(ymm(i), src);
+      else a.movdqu(xmm(i), src);
+    }
+    for (uint32_t i = 0; i < 8; i++) {
+      if ((f.dirty_regs(RegGroup::kMask) >> i) & 1) a.kmovq(x86::k(i), D(D_JUNK_K + 8 * i));
+      if ((f.dirty_regs(RegGroup::kExtra) >> i) & 1) a.movq(mm(i), D(D_JUNK_MM + 8 * i));
+    }
+  }
+  size_t epi_off = a.offset();
+  Error e2 = a.emit_epilog(f);
+  size_t end_off = a.offset();
+  a.align(AlignMode::kData, 64);
+  a.bind(L_data);
+  size_t data_off = a.offset();
+  a.embed(data.data(), data.size());
+  if (e1 != Error::kOk || e2 != Error::kOk) {
+    ctx.fail_unless_known("emit-error:x64", fmt("[host] Assembler emit_prolog -> %u, emit_epilog -> %u :: %s :: %s", unsigned(e1), unsigned(e2), describe(p, b).c_str(), make_listing(p, b).c_str()));
+    return;
+  }
+  const CodeBuffer& cb = code.text_section()->buffer();
+  if (cb.size() > kExecSize || cb.size() != data_off + D_SIZE) ctx.fail("harness-code-size", fmt("code buffer %zu bytes, data at %zu", cb.size(), data_off));
+  memcpy(g_exec, cb.data(), cb.size());
+  uint8_t* dp = g_exec + data_off;
+  auto getd = [&](uint32_t off) { uint64_t v; memcpy(&v, dp + off, 8); return v; };
+  std::string listing;
+  auto lst = [&]() -> const std::string& { if (listing.empty()) listing = make_listing(p, b); return listing; };
+
+  // ---- machine state and the private stack ----
+  static MState st;
+  memset(&st, 0, sizeof st);
+  for (int i = 0; i < 16; i++) st.gpr[i] = in.gp[i];
+  st.rflags = 0x202; st.mxcsr = 0x1F80;
+  for (int i = 0; i < 8; i++) st.k[i] = in.k[i];
+  memcpy(st.zmm, in.vec, sizeof st.zmm);
+  for (int i = 0; i < MSC_STACK_WORDS; i++) st.stack[i] = mix(p.seed * 31 + 900 + uint64_t(i));
+  uint64_t stack_in[MSC_STACK_WORDS];
+  memcpy(stack_in, st.stack, sizeof stack_in);
+  uint8_t *lo = nullptr, *hi = nullptr, *ent = nullptr;
+  msc_stack_bounds(&lo, &hi, &ent);
+  if (!g_stack_filled) { msc_stack_fill(0xC7); g_stack_filled = true; }
+  const size_t kWin = std::min<size_t>(0x48000, (size_t(f.final_stack_size()) + f.stack_adjustment() + 0x2FFF) & ~size_t(0xFFF));
+  uint8_t* win_lo = ent - kWin;
+  if (win_lo < lo) ctx.fail("harness-stack-too-small", "private stack smaller than the window");
+  static uint8_t* s_prev_lo = nullptr;
+  uint8_t* fill_lo = (s_prev_lo && s_prev_lo < win_lo) ? s_prev_lo : win_lo;
+  memset(fill_lo, 0xC7, size_t(hi - fill_lo));
+  s_prev_lo = win_lo;
+  win_lo = lo;     // the scan below covers the whole private stack
+  uint64_t E = uint64_t(uintptr_t(ent));
+  uint64_t rsp_call = E - 8 - 16 * k - 8 * kThunkWords;
+  uint64_t E_in = rsp_call - 8;
+
+  int sig = msc_run((void (*)())g_exec, &st);
+  ctx.cls("host_executed");
+  std::string where = fmt("thunk@0 fn@%zu body@%zu epilog@%zu end@%zu", fn_off, body_off, epi_off, end_off);
+  if (sig != 0) {
+    uint64_t rip = msc_fault_rip(), cb0 = uint64_t(uintptr_t(g_exec));
+    bool inside = rip >= cb0 && rip < cb0 + end_off;
+    std::string key = inside ? "exec-fault:" + b.cc : "return-address-lost:" + b.cc;
+    ctx.fail_unless_known(key, fmt("[host] signal %d at %s (code offset %lld; %s), fault address %s, entry SP %s :: %s :: %s", sig, hex(rip).c_str(), (long long)(rip - cb0), where.c_str(),
+                                   hex(msc_fault_addr()).c_str(), hex(E_in).c_str(), describe(p, b).c_str(), lst().c_str()));
+    memset(lo, 0xC7, size_t(hi - lo));     // unknown damage: refill everything
+    s_prev_lo = nullptr;
+    return;
+  }
+  if (getd(D_RETURNED) != 1 || st.rsp_exit != st.rsp_entry + 8 || st.rsp_entry != E) {
+    ctx.fail_unless_known("return-address-lost:" + b.cc, fmt("[host] the function did not come back through its return address (flag %llu, thunk rsp %s -> %s) :: %s :: %s",
+                          (unsigned long long)getd(D_RETURNED), hex(st.rsp_entry).c_str(), hex(st.rsp_exit).c_str(), describe(p, b).c_str(), lst().c_str()));
+    return;
+  }
+  uint64_t after = getd(D_AFTER_RSP), S = getd(D_BODY_RSP);
+  if (after != rsp_call + b.callee_pop)
+    ctx.fail_unless_known("rsp-not-restored:" + b.cc, fmt("[host] rsp after return %s, expected %s (entry %s + 8 + callee-popped %u) :: %s :: %s", hex(after).c_str(), hex(rsp_call + b.callee_pop).c_str(), hex(E_in).c_str(), b.callee_pop, describe(p, b).c_str(), lst().c_str()));
+  check_body_sp(p, b, ctx, S, "host");
+  if ((!b.da && E_in - S != f.final_stack_size()) || (b.da && E_in - S < f.final_stack_size()))
+    ctx.fail_unless_known("final-stack-size-mismatch:" + b.cc, fmt("[host] entry rsp - body rsp = %llu, final_stack_size() = %u :: %s :: %s", (unsigned long long)(E_in - S), f.final_stack_size(), describe(p, b).c_str(), lst().c_str()));
+  if (b.fp && getd(D_BODY_RBP) != E_in - 8)
+    ctx.fail_unless_known("frame-pointer-wrong:" + b.cc, fmt("[host] rbp in the body %s, expected entry rsp - 8 = %s :: %s :: %s", hex(getd(D_BODY_RBP)).c_str(), hex(E_in - 8).c_str(), describe(p, b).c_str(), lst().c_str()));
+  for (size_t j = 0; j < nsa; j++) {
+    uint64_t want; memcpy(&want, (const void*)uintptr_t(rsp_call + uint64_t(b.stack_args[j])), 8);
+    const char* names[3] = {"rsp+sa_offset_from_sp", "rbp+sa_offset_from_sa", "sa_reg+sa_offset_from_sa"};
+    bool use[3] = {sp_path, b.fp, sa_path};
+    const char* tagk[3] = {":sp", ":fp", ":sa"};
+    for (int q = 0; q < 3; q++)
+      if (use[q] && getd(D_ARGS + uint32_t(q) * 128 + uint32_t(j) * 8) != want)
+        ctx.fail_unless_known("stack-arg-offset-wrong:" + b.cc + tagk[q], fmt("[host] stack argument at offset %d read through %s is %s, the caller stored %s :: %s :: %s", b.stack_args[j], names[q],
+                              hex(getd(D_ARGS + uint32_t(q) * 128 + uint32_t(j) * 8)).c_str(), hex(want).c_str(), describe(p, b).c_str(), lst().c_str()));
+  }
+  RegState out;
+  memset(&out, 0, sizeof out);
+  for (int i = 0; i < 16; i++) out.gp[i] = st.gpr[i];
+  for (int i = 0; i < 8; i++) { out.k[i] = st.k[i]; out.mm[i] = use_mm ? getd(D_MM_AFTER + 8 * uint32_t(i)) : in.mm[i]; }
+  memcpy(out.vec, st.zmm, sizeof st.zmm);
+  check_regs(p, b, ctx, in, out, "host", use_mm, vzu, lst());
+  // ---- memory the function must not touch ----
+  {
+    const uint8_t* low_ok = (const uint8_t*)uintptr_t(S - f.red_zone_size());
+    const uint8_t* scratch = hi - 32768 - 8;      // the trampoline's pushfq/pop slot
+    const uint8_t* bad = nullptr;
+    if (low_ok > win_lo && low_ok <= hi) {
+      if (scratch >= win_lo && scratch < low_ok) { bad = first_not(win_lo, scratch, 0xC7); if (!bad && scratch + 8 < low_ok) bad = first_not(scratch + 8, low_ok, 0xC7); }
+      else bad = first_not(win_lo, low_ok, 0xC7);
+    }
+    if (bad)
+      { memset(lo, 0xC7, size_t(hi - lo)); s_prev_lo = nullptr;
+        ctx.fail_unless_known("canary-below-frame", fmt("[host] byte %llu below (body rsp - red zone) was written (body rsp %s) :: %s :: %s", (unsigned long long)(low_ok - bad), hex(S).c_str(), describe(p, b).c_str(), lst().c_str())); }
+    uint32_t spill = (p.has(F_WRITE_SPILL) ? f.spill_zone_size() : 0);
+    std::string cf;
+    for (uint32_t i = 0; i < kThunkWords && cf.empty(); i++) {
+      uint64_t w; memcpy(&w, (const void*)uintptr_t(rsp_call + 8 * i), 8);
+      uint64_t want = (8 * i < spill) ? 0xB4B4B4B4B4B4B4B4ull : uint64_t(int64_t(tword(i)));
+      if (w != want) cf = fmt("caller word #%u at entry rsp + %u is %s, expected %s", i, 8 + 8 * i, hex(w).c_str(), hex(want).c_str());
+    }
+    if (cf.empty() && first_not((const uint8_t*)uintptr_t(rsp_call + 8 * kThunkWords), ent, 0xC7)) cf = "padding between the caller words and the thunk's return address was written";
+    if (cf.empty() && (memcmp(stack_in, st.stack, sizeof stack_in) != 0 || memcmp(stack_in, ent + 8, sizeof stack_in) != 0)) cf = "the words above the thunk's return address changed";
+    if (cf.empty() && first_not(ent + 8 + sizeof stack_in, hi, 0xC7)) cf = "bytes above the argument words were written";
+    if (!cf.empty())
+      ctx.fail_unless_known("caller-frame-clobbered", fmt("[host] %s :: %s :: %s", cf.c_str(), describe(p, b).c_str(), lst().c_str()));
+  }
+}
+
 } // namespace
+
+// ---------------------------------------------------------------------------------------------------------------------------
+// Generator, enumeration, property body
+// ---------------------------------------------------------------------------------------------------------------------------
+rc::Gen<vh::Case> vh_gen(const vh::Opts&) {
+  using vh::irange;
+  return rc::gen::exec([]() -> vh::Case {
+    auto pct = [](int n) { return *irange<int>(0, 99) < n; };
+    auto r32 = []() { return int64_t(uint32_t(*irange<int>(0, 0xFFFF)) | (uint32_t(*irange<int>(0, 0xFFFF)) << 16)); };
+    auto mask = [&](int zero_pct) -> int64_t {
+      if (pct(zero_pct)) return 0;
+      switch (*irange<int>(0, 4)) { case 0: return 0xFFFFFFFFll; case 1: return r32() & r32(); case 2: return r32(); case 3: return r32() | r32(); default: return int64_t(1) << *irange<int>(0, 31); }
+    };
+    vh::Case c;
+    c.cfg.assign(20, 0);
+    int as = *irange<int>(0, 99);
+    int arch = as < 50 ? ARCH_X64 : as < 75 ? ARCH_X86 : ARCH_A64;
+    c.cfg[0] = arch;
+    if (arch == ARCH_X64) { static const int t[] = {11, 11, 11, 0, 12, 12, 12, 3, 3, 8, 9, 10, 1, 2, 4, 5, 6, 7, 0, 3}; c.cfg[1] = t[*irange<int>(0, 19)]; }
+    else if (arch == ARCH_X86) c.cfg[1] = *irange<int>(0, 10);
+    else c.cfg[1] = pct(85) ? *irange<int>(0, 1) : *irange<int>(2, 4);
+    c.cfg[2] = *irange<int>(0, 1);
+    c.cfg[3] = pct(35) ? *irange<int>(0, 4) : (arch == ARCH_A64 || pct(25)) ? *irange<int>(7, 12) : *irange<int>(5, 8);
+    if (pct(55)) { static const int ints[] = {0, 1, 2, 7, 6, 1, 2, 0}; int64_t v = 0; for (int i = 0; i < 8; i++) v |= int64_t(ints[*irange<int>(0, 7)]) << (3 * i); c.cfg[4] = v; }
+    else c.cfg[4] = *irange<int>(0, (1 << 24) - 1);
+    c.cfg[5] = mask(10); c.cfg[6] = mask(25); c.cfg[7] = mask(65); c.cfg[8] = mask(75);
+    auto size = [&](int zero_pct) -> int64_t {
+      if (pct(zero_pct)) return 0;
+      int s = *irange<int>(0, 99);
+      if (s < 30) return *irange<int>(1, 64);
+      if (s < 55) return *irange<int>(65, 4096);
+      if (s < 75) return *irange<int>(4097, 65536);
+      static const int bnd[] = {8, 16, 24, 40, 4095, 4096, 4097, 8192, 32767, 32768, 65535, 65536, 1, 4, 12, 100};
+      return bnd[*irange<int>(0, 15)];
+    };
+    c.cfg[9] = size(15);
+    c.cfg[10] = pct(20) ? 0 : *irange<int>(1, 7);
+    c.cfg[11] = size(45);
+    c.cfg[12] = pct(50) ? 0 : *irange<int>(1, 7);
+    int64_t fl = 0;
+    static const int prob[14] = {40, 15, 40, 15, 40, 25, 12, 15, 15, 15, 30, 50, 10, 15};
+    for (int i = 0; i < 14; i++) if (pct(prob[i])) fl |= int64_t(1) << i;
+    c.cfg[13] = fl;
+    c.cfg[14] = pct(75) ? 0 : *irange<int>(1, 29);
+    if (pct(18)) { if (pct(50)) c.cfg[15] = mask(0); if (pct(60)) c.cfg[16] = mask(0) & 0xFF; if (pct(40)) c.cfg[17] = mask(0) & 0xFF; }
+    c.cfg[18] = *irange<int>(0, 15);
+    c.cfg[19] = *irange<int>(0, 999);
+    return c;
+  });
+}
+
+// Deterministic grid: arch x convention x platform x FP x alignment x size preset x dirty preset.
+bool vh_enum(const vh::Opts& o, uint64_t k, vh::Case& out) {
+  uint64_t idx = k * uint64_t(std::max(1, o.workers)) + uint64_t(o.worker);
+  static const int ncc[3] = {13, 11, 5};
+  uint64_t per_arch[3], total = 0;
+  for (int a = 0; a < 3; a++) { per_arch[a] = uint64_t(ncc[a]) * 2 * 2 * 5 * 3 * 3; total += per_arch[a]; }
+  if (idx >= total) return false;
+  int arch = 0;
+  while (idx >= per_arch[arch]) { idx -= per_arch[arch]; arch++; }
+  out = vh::Case();
+  out.cfg.assign(20, 0);
+  out.cfg[0] = arch;
+  out.cfg[1] = int64_t(idx % uint64_t(ncc[arch])); idx /= uint64_t(ncc[arch]);
+  out.cfg[2] = int64_t(idx % 2); idx /= 2;
+  int fp = int(idx % 2); idx /= 2;
+  static const int als[5] = {0, 4, 5, 6, 7};
+  out.cfg[10] = als[idx % 5]; idx /= 5;
+  int sp = int(idx % 3); idx /= 3;
+  int dp = int(idx % 3);
+  out.cfg[9] = sp == 0 ? 0 : sp == 1 ? 24 : 4104;
+  out.cfg[11] = sp == 2 ? 40 : 0;
+  out.cfg[3] = arch == ARCH_A64 ? 11 : 8; out.cfg[4] = 0x249249;          // 64-bit integer arguments, some on the stack
+  int64_t m = dp == 0 ? 0 : dp == 1 ? 0xFFFFFFFFll : 0xAAAAAAAAll;
+  out.cfg[5] = m; out.cfg[6] = m; out.cfg[7] = dp == 1 ? 0xFF : 0; out.cfg[8] = 0;
+  out.cfg[13] = (fp ? F_FP : 0) | (dp == 1 ? (F_AVX | F_AVX512) : dp == 2 ? F_AVX : 0) | (sp == 2 ? F_FUNC_CALLS : 0) | F_WRITE_SPILL;
+  out.cfg[18] = int64_t((k * 7 + 3) % 16);
+  out.cfg[19] = int64_t(k % 1000);
+  return true;
+}
+
+void vh_run(const vh::Case& c, vh::Ctx& ctx) {
+  P p = decode(c);
+  Built b;
+  static const char* an[3] = {"x64", "x86", "a64"};
+  ctx.cls(std::string("arch_") + an[p.arch]);
+  if (!build(p, b, ctx)) { ctx.cls("build_refused"); return; }
+  const FuncFrame& f = b.frame;
+  ctx.cls("cc_" + b.cc);
+  if (b.custom) ctx.cls("custom_preserved_regs");
+  ctx.cls(b.fp ? "fp_preserved" : "fp_omitted");
+  ctx.cls(b.da ? (b.fp ? "dyn_align_with_fp" : "dyn_align_without_fp") : "no_dyn_align");
+  ctx.cls(std::string("final_align_") + std::to_string(f.final_stack_alignment()));
+  ctx.cls(f.local_stack_size() == 0 ? "local_0" : f.local_stack_size() <= 64 ? "local_1_64" : f.local_stack_size() <= 4096 ? "local_65_4096" : f.local_stack_size() < 65536 ? "local_4097_65535" : "local_64k");
+  ctx.cls(f.call_stack_size() == 0 ? "call_0" : f.call_stack_size() <= 128 ? "call_1_128" : "call_large");
+  int groups = 0;
+  static const char* gn[4] = {"gp", "vec", "k", "mm"};
+  for (int g = 0; g < 4; g++) if (f.saved_regs(RegGroup(g))) { groups++; ctx.cls(std::string("saves_") + gn[g]); }
+  ctx.cls(std::string("saved_groups_") + std::to_string(groups));
+  if (p.arch != ARCH_A64 && f.saved_regs(RegGroup::kVec)) {
+    ctx.cls(f.has_aligned_vec_save_restore() ? "vec_save_aligned" : "vec_save_unaligned");
+    ctx.cls(f.is_avx512_enabled() ? "vec_save_mode_avx512" : f.is_avx_enabled() ? "vec_save_mode_avx" : "vec_save_mode_sse");
+    if (f.saved_regs(RegGroup::kVec) >> 16) ctx.cls("vec_save_high16");
+  }
+  if (!b.stack_args.empty()) ctx.cls("has_stack_args");
+  if (f.has_callee_stack_cleanup()) ctx.cls("callee_pops");
+  if (p.sa_reg >= 0) ctx.cls("explicit_sa_reg");
+  if (f.has_da_offset()) ctx.cls("da_slot");
+  if (f.has_red_zone()) ctx.cls("red_zone"); if (f.has_spill_zone()) ctx.cls("spill_zone");
+  if (f.has_func_calls()) ctx.cls("func_calls");
+  if (f.has_indirect_branch_protection()) ctx.cls("ibt");
+  if (f.has_avx_cleanup() || f.has_avx_auto_cleanup()) ctx.cls("avx_cleanup");
+  if (f.has_mmx_cleanup()) ctx.cls("mmx_cleanup");
+  if (f.stack_adjustment() == 0) ctx.cls("no_stack_adjustment");
+
+  check_layout(p, b, ctx);
+  // SSE moves cannot name xmm16..31: the frame must use (E)VEX moves whenever such a register is saved.
+  if (p.arch != ARCH_A64 && !f.is_avx_enabled() && (f.saved_regs(RegGroup::kVec) >> 16) != 0) {
+    ctx.cls("sse_save_of_high_xmm");
+    ctx.fail_unless_known("vec-save-sse-with-xmm16plus", "AVX-512 enabled without AVX and xmm16..31 to save: prolog/epilog use movaps/movups with xmm16+ (assembled as xmm0..15) :: " + describe(p, b) + " :: " + make_listing(p, b));
+    return;
+  }
+  bool nosim = ctx.opts && ctx.opts->geti("nosim", 0), nohost = ctx.opts && ctx.opts->geti("nohost", 0);   // oracle selection for sensitivity studies
+  if (!nosim) { run_sim(p, b, ctx); ctx.cls("simulated"); }
+  if (p.arch == ARCH_X64 && !nohost) run_host(p, b, ctx); else ctx.cls("arithmetic_and_reference_machine_only");
+
+  if (groups >= 2 || b.da || f.local_stack_size() > 4096) {
+    ctx.nontrivial();
+    if (ctx.want_sample()) ctx.sample(describe(p, b) + " :: " + make_listing(p, b));
+  }
+}
